@@ -942,7 +942,7 @@ Proof.
            apply negb_true_iff, Z.eqb_neq in E3. cbn [pb_q pb_base pb_tie]. exists b. split; [reflexivity|].
            split; [apply in_snoc; left; assumption|]. split.
            ++ intros b' q' H. apply in_snoc in H. destruct H as [H|H]; [eauto|inversion H; lia].
-           ++ split; [|reflexivity]. intros _. exists b0. split; [congruence|]. apply in_snoc. right. congruence.
+           ++ split; [|reflexivity]. intros _. exists b0. split; [apply not_eq_sym; assumption|]. apply in_snoc. right. rewrite E2. reflexivity.
         -- exists b. split; [assumption|]. split; [apply in_snoc; left; assumption|]. split.
            ++ intros b' q' H. apply in_snoc in H. destruct H as [H|H]; [eauto|inversion H; lia].
            ++ rewrite Htie. split.
